@@ -457,14 +457,21 @@ fn body(p: &Arc<Prepared>) {
     let mut follow_up: Option<String> = None;
     if p.opts.c14 {
         if let Policy::Random(l) = p.cfg.policy {
+            // the victims of these sequential stores are not explored (first entry every time): the
+            // bound must hold whichever victim is taken, and the race is what is being enumerated
+            sut::FIXED_CHOICES.with(|c| c.set(true));
             let n = ((l + 64) / 64 + 3).min(40) as u8;
             for i in 0..n {
                 let key = [b'f', b'0' + i];
                 let out = c0.exec(&Req::store(op::SET, &key, &[b'F'; 40], 0, 0, 0).opaque(0xf0 + i as u32).bytes());
                 if out.panic.is_some() {
+                    sut::FIXED_CHOICES.with(|c| c.set(false));
                     break;
                 }
                 let sum: u64 = world.dump().iter().map(|d| d.size()).sum();
+                if i + 1 == n {
+                    sut::FIXED_CHOICES.with(|c| c.set(false));
+                }
                 if sum > l + 64 && follow_up.is_none() {
                     follow_up = Some(format!(
                         "after the concurrent phase, sequential store #{} of a 64-byte record leaves {} bytes stored > limit {} + 64",
